@@ -55,6 +55,18 @@ func WellFormed(p *ps.Program) (bool, []string) {
 		if len(p.PTasks)+len(p.Slices)+len(p.Maps) == 0 {
 			diag["other"] = true
 		}
+		// Element types must be assignable to the function's parameters
+		// (the relation is given by the spec's assignable flag).
+		for _, s := range p.Slices {
+			if !s.Assign {
+				diag["other"] = true
+			}
+		}
+		for _, mp := range p.Maps {
+			if !mp.Assign {
+				diag["other"] = true
+			}
+		}
 		return len(diag) == 0, keys(diag)
 	}
 	nprov := map[int]int{}
@@ -115,6 +127,11 @@ func WellFormed(p *ps.Program) (bool, []string) {
 		}
 		if t.FB && !t.Err {
 			diag["fallback"] = true
+		}
+		if t.Invoke && p.Quirk == "invokevar" {
+			// cff.Invoke needs a constant argument.
+			diag["invoke"] = true
+			diag["other"] = true
 		}
 		instr = instr || t.Instr
 	}
@@ -1017,4 +1034,84 @@ func CheckPar(p *ps.Program, sc *ps.Scenario, o *Obs) []Mismatch {
 	}
 	checkCommon(m, p, sc, o)
 	return m.list
+}
+
+// ---------------------------------------------------------------------
+// Modifier mode.
+
+// ModifierLine compares the modifier-mode observation of a scenario with
+// the base-mode one and returns the fields of the `modifier` O line.
+//
+//	ret:     same iff the sorted entry lists are equal, or both have exactly
+//	         one entry and the scenario assigns a failure to several tasks
+//	         (which one is reported is a race in both modes)
+//	results: same iff the result lines are equal
+//	calls:   same iff the sorted call lines are equal; when either run
+//	         failed, iff every task called in both runs got the same arguments
+//	         (which independent tasks still run after a failure is a race)
+func ModifierLine(sc *ps.Scenario, base, mod *Obs) (ret, results, calls string) {
+	if mod.Crash != "" || !mod.HasRet {
+		return "diff:crash", "diff", "diff"
+	}
+	nfail := 0
+	for _, oc := range sc.Fn {
+		if oc != "ok" {
+			nfail++
+		}
+	}
+	br, mr := strings.Join(base.Ret, ","), strings.Join(mod.Ret, ",")
+	ret = "same"
+	if br != mr && !(nfail > 1 && len(base.Ret) == 1 && len(mod.Ret) == 1) {
+		ret = "diff:" + retText(mod.Ret)
+	}
+	results = "same"
+	if len(base.Results) != len(mod.Results) {
+		results = "diff"
+	}
+	for i, v := range base.Results {
+		if mod.Results[i] != v {
+			results = "diff"
+		}
+	}
+	calls = "same"
+	bc, mc := map[string]string{}, map[string]string{}
+	for _, c := range base.Calls {
+		bc[c.Kind+" "+c.F[0]] += c.Key() + ";"
+	}
+	for _, c := range mod.Calls {
+		mc[c.Kind+" "+c.F[0]] += c.Key() + ";"
+	}
+	failed := len(base.Ret) > 0 || len(mod.Ret) > 0
+	for k, v := range bc {
+		if w, ok := mc[k]; ok && w != v || !ok && !failed {
+			calls = "diff"
+		}
+	}
+	for k := range mc {
+		if _, ok := bc[k]; !ok && !failed {
+			calls = "diff"
+		}
+	}
+	return
+}
+
+func retText(ret []string) string {
+	if len(ret) == 0 {
+		return "nil"
+	}
+	return strings.Join(ret, ",")
+}
+
+// CheckModifier applies the flow semantics to the modifier-mode
+// observation itself (ret, calls, arguments, results only) and reports
+// everything under the property "modifier".
+func CheckModifier(p *ps.Program, sc *ps.Scenario, mod *Obs) []Mismatch {
+	var out []Mismatch
+	for _, m := range CheckFlow(p, sc, mod) {
+		switch m.Prop {
+		case "crash", "ret", "calls", "args", "results", "order":
+			out = append(out, Mismatch{"modifier", m.Prop + ":" + m.Msg})
+		}
+	}
+	return out
 }
